@@ -33,6 +33,36 @@ theorem mem_allow (x f : String) (l : List String) : x ∈ allowDeletion f l ↔
   · rintro ⟨h1, h2⟩; exact ⟨h2, h1⟩
   · rintro ⟨h1, h2⟩; exact ⟨h2, h1⟩
 
+/-! list facts about block/allow (C06 proves the same about its own definitions) -/
+
+theorem block_idem (f : String) (l : List String) : blockDeletion f (blockDeletion f l) = blockDeletion f l := by
+  have h : f ∈ blockDeletion f l := (mem_block f f l).2 (Or.inl rfl)
+  generalize blockDeletion f l = l' at h ⊢
+  unfold blockDeletion
+  rw [if_pos h]
+
+theorem allow_idem (f : String) (l : List String) : allowDeletion f (allowDeletion f l) = allowDeletion f l := by
+  unfold allowDeletion
+  rw [List.filter_filter]
+  congr 1
+  funext x
+  simp
+
+/-- Block/allow touch nothing but their own finalizer: the others keep their place and order. -/
+theorem foreign_finalizers_untouched (f : String) (l : List String) :
+    (blockDeletion f l).filter (fun x => x != f) = l.filter (fun x => x != f) ∧
+    (allowDeletion f l).filter (fun x => x != f) = l.filter (fun x => x != f) := by
+  constructor
+  · unfold blockDeletion
+    split
+    · rfl
+    · simp [List.filter_append]
+  · unfold allowDeletion
+    rw [List.filter_filter]
+    congr 1
+    funext x
+    simp
+
 theorem applyFns_nil (o : Obj) : applyFns [] o = o := rfl
 
 theorem applyFns_cons (f : Fn) (fs : List Fn) (o : Obj) : applyFns (f :: fs) o = applyFns fs (f.app o) := rfl
@@ -199,9 +229,9 @@ theorem step_json_at_version (sub : Bool) (env : Env) (k : Kind) (fi : Option (L
     ∃ new, new.uid = o.uid ∧ new.marked = o.marked ∧ new.fins = finsAfter sub k fi o ∧
       step sub env k (.json o.rv fi sv) s =
         (((slipped env k s).put o new).1, ⟨k, .json o.rv fi sv, some o.uid, 200⟩, some ((slipped env k s).put o new).2) := by
-  rcases step_cases sub env k (.json o.rv fi sv) s with (⟨h, _⟩ | ⟨h, _⟩) | ⟨_, h, _⟩ | ⟨o', _, ho', ha, _⟩ | ⟨o', new, _, ho', ha, e⟩
+  rcases step_cases sub env k (.json o.rv fi sv) s with (⟨h, _⟩ | ⟨c, h, _⟩) | ⟨_, h, _⟩ | ⟨o', _, ho', ha, _⟩ | ⟨o', new, _, ho', ha, e⟩
   · rw [hf] at h; cases h
-  · rw [hf] at h; cases h
+  · exact absurd hf h.1
   · rw [ho] at h; cases h
   · rw [ho] at ho'; cases ho'
     simp [applyPayload] at ha
@@ -215,9 +245,9 @@ theorem step_json_at_version (sub : Bool) (env : Env) (k : Kind) (fi : Option (L
 theorem step_json_stale (sub : Bool) (env : Env) (k : Kind) (t : Nat) (fi : Option (List String)) (sv : Option J)
     (s : Server) (o : Obj) (hf : env.faults k = .none) (ho : (slipped env k s).obj = some o) (hne : o.rv ≠ t) :
     step sub env k (.json t fi sv) s = (slipped env k s, ⟨k, .json t fi sv, some o.uid, 422⟩, none) := by
-  rcases step_cases sub env k (.json t fi sv) s with (⟨h, _⟩ | ⟨h, _⟩) | ⟨_, h, _⟩ | ⟨o', _, ho', ha, e⟩ | ⟨o', new, _, ho', ha, _⟩
+  rcases step_cases sub env k (.json t fi sv) s with (⟨h, _⟩ | ⟨c, h, _⟩) | ⟨_, h, _⟩ | ⟨o', _, ho', ha, e⟩ | ⟨o', new, _, ho', ha, _⟩
   · rw [hf] at h; cases h
-  · rw [hf] at h; cases h
+  · exact absurd hf h.1
   · rw [ho] at h; cases h
   · rw [ho] at ho'; cases ho'; exact e
   · rw [ho] at ho'; cases ho'
@@ -226,10 +256,10 @@ theorem step_json_stale (sub : Bool) (env : Env) (k : Kind) (t : Nat) (fi : Opti
 theorem step_absent (sub : Bool) (env : Env) (k : Kind) (pl : Payload) (s : Server)
     (ho : (slipped env k s).obj = none) :
     (step sub env k pl s).1 = slipped env k s ∧ (step sub env k pl s).2.1.code ≠ 200 ∧
-    ((step sub env k pl s).2.1.code = 404 ∨ env.faults k = .unprocessable) := by
-  rcases step_cases sub env k pl s with (⟨_, e⟩ | ⟨h, e⟩) | ⟨_, _, e⟩ | ⟨o', _, ho', _, _⟩ | ⟨o', new, _, ho', _, _⟩
+    ((step sub env k pl s).2.1.code = 404 ∨ env.faults k ≠ .none) := by
+  rcases step_cases sub env k pl s with (⟨_, e⟩ | ⟨c, h, e⟩) | ⟨_, _, e⟩ | ⟨o', _, ho', _, _⟩ | ⟨o', new, _, ho', _, _⟩
   · rw [e]; simp
-  · rw [e]; simp [h]
+  · rw [e]; exact ⟨rfl, h.2.1, Or.inr h.1⟩
   · rw [e]; simp
   · rw [ho] at ho'; cases ho'
   · rw [ho] at ho'; cases ho'
